@@ -1,7 +1,7 @@
 (* C04 — HTTP/1 connections always progress: no lost wake-ups, all bytes flushed.
    Only statements here; proofs live in H1/FlushProofs.v, H1/ReadBufProofs.v, H1/PollProofs.v. *)
 From AV Require Import Lib.Base Gen.Consts H1.ReadBuf H1.ReadBufProofs H1.Flush H1.FlushProofs
-     H1.Gates H1.GatesCfg H1.GatesProofs H1.PollProofs H1.PollProofs2.
+     H1.Gates H1.GatesCfg H1.GatesProofs H1.PollProofs H1.PollProofs2 Gen.DispatcherGuards H1.GuardsTie.
 
 (* Over ANY history of "append response bytes to write_buf" and "poll_flush against a socket that
    answers each poll_write with Accept k (partial write) | Pending | Ok(0) | Err and the final
@@ -185,6 +185,49 @@ Example C04_termination_example :
   let rs := repeat (mk_round 0 false [WAccept 1] [] false) 6 in
   Tail x /\ snd (polls c 8 x (firstn 4 rs)) = PPend /\ snd (polls c 8 x (firstn 5 rs)) = PDone /\ snd (polls c 8 x rs) = PDone.
 Proof. vm_compute. repeat split. Qed.
+
+(* TRANSLATOR TIE (tools/gen/dispatcher_guards.py -> Gen/DispatcherGuards.v): the wake / flush / epilogue
+   guards of the models are the interpretation of the records extracted from dispatcher.rs on every
+   run -- the three-way match on the payload status at the read cap (who self-wakes, who waits),
+   the bookkeeping of the three arms of poll_flush (`written += n`, `advance(written)` + Pending,
+   WriteZero) and its exit, the atoms under which the stored error is surfaced, and the
+   F21/F28 self-wake condition.  Editing one of those source lines regenerates the records and
+   breaks this theorem. *)
+Theorem C04_guards_match_source :
+  (forall st, cap_lookup DG_CAP_MATCH (dg_of_status st) = Some (if cap_self_wake st then DgSelfWake else DgWait)) /\
+  (forall a b, op_b DG_FLUSH_LOOP_OP a b = (a <? b)) /\
+  (forall fuel buf written script dflt wire calls,
+     op_b DG_FLUSH_LOOP_OP written (lenN buf) = true -> fst (next_ans script dflt) = WPending ->
+     let o := write_loop (S fuel) buf written script dflt wire calls in
+     f_buf o = (if has_stmt DgAdvanceWritten DG_FLUSH_PENDING then slice_from written buf else buf) /\
+     f_res o = (if has_stmt DgReturnPending DG_FLUSH_PENDING then FlPending else FlReady) /\ f_wire o = wire) /\
+  (forall fuel buf written script dflt wire calls k,
+     op_b DG_FLUSH_LOOP_OP written (lenN buf) = true -> fst (next_ans script dflt) = WAccept k ->
+     N.min k (lenN (slice_from written buf)) =? 0 = false ->
+     let n := N.min k (lenN (slice_from written buf)) in
+     write_loop (S fuel) buf written script dflt wire calls =
+     write_loop fuel buf (if has_stmt DgWrittenAddN DG_FLUSH_READYN then written + n else written)
+                (snd (next_ans script dflt)) dflt (wire ++ take n (slice_from written buf)) (calls + 1)) /\
+  (forall buf script dflt fl,
+     (buf <> [] -> fst (next_ans script dflt) = WZero ->
+      f_res (poll_flush buf script dflt fl) = (if has_stmt DgErrWriteZero DG_FLUSH_READY0 then FlWriteZero else FlReady)) /\
+     (f_res (poll_flush buf script dflt fl) = FlReady ->
+      f_buf (poll_flush buf script dflt fl) = (if has_stmt DgClear DG_FLUSH_DONE then [] else buf) /\
+      has_stmt DgPollFlush DG_FLUSH_DONE = true /\ fl = FReady)) /\
+  (forall none wbe wc op rbn, atoms_b none wbe wc op rbn DG_ERROR_GUARD = none && wbe) /\
+  (forall c F x r x', poll c F x r = (x', PFailTooLarge) ->
+     atoms_b (match state (m x') with SNone => true | _ => false end) (wb (m x') =? 0) false false false
+             DG_ERROR_GUARD = true) /\
+  (forall c qtop crtop qend crend rbn,
+     let was_closed := conn_b DG_WAS_CLOSED_CONN (op_b DG_WAS_CLOSED_OP qtop (c_maxp c)) (neg_b DG_WAS_CLOSED_NEG crtop) in
+     let is_open := conn_b DG_OPEN_CONN (op_b DG_OPEN_OP qend (c_maxp c)) (neg_b DG_OPEN_NEG crend) in
+     atoms_b false false was_closed is_open rbn DG_SELF_WAKE =
+     ((c_maxp c <=? qtop) || negb crtop) && ((qend <? c_maxp c) && crend) && rbn).
+Proof.
+  split; [exact tie_cap_match|]. split; [exact tie_flush_loop_op|]. split; [exact tie_flush_pending|].
+  split; [exact tie_flush_ready_n|]. split; [exact tie_flush_ready0_done|]. split; [exact tie_error_guard|].
+  split; [exact tie_error_guard_poll|exact tie_self_wake].
+Qed.
 
 (* non-vacuity: partial writes, a Pending in the middle, completion *)
 Example C04_example :
